@@ -130,8 +130,8 @@ class C18(Prop):
         "or raise; they may assign the public attributes of the object that is running them (modelled: the attributes "
         "are part of the adversary-visible state), but they do not call back into the loop that is invoking them "
         "(re-entrant tools: search-only line retools)",
-        "tool_calls returned by the provider is None or a finite list (a truthy-but-empty or unbounded iterable is not "
-        "modelled)",
+        "tool_calls returned by the provider is None or a finite list in the model (a generator object as tool_calls - "
+        "truthy even when empty - is a search-only line, gtools; an unbounded one is outside the property)",
         "worker outputs are ASCII strings in the correspondence (str.upper is CPython's); md5 prefixes are taken as "
         "injective on the outputs explored",
         "the mitochondria seen by transcribe_with_tools is the real Mitochondria around a scripted tool function for "
@@ -348,6 +348,11 @@ class C18(Prop):
             if i % 40 == 39:                      # malformed stream: unknown ops / wrong arity
                 yield {"lines": [rng.choice(["frob 1 2", "heal 3", "supervise w", "tools 1 1 1", "swarm 1", ""])
                                  or "nop", self._gen_heal(rng)], "note": "malformed"}
+                continue
+            if i % 50 == 27:
+                yield {"lines": [f"gtools {rng.choice([0, 1, 2, 3, 5, -1])} "
+                                 f"{''.join(rng.choice('01230') for _ in range(rng.randint(1, 5)))}"],
+                       "note": "tool_calls as a generator object (oracle only)"}
                 continue
             if i % 25 == 7:
                 yield {"lines": [f"retools {rng.choice([0, 1, 2, 3, 4, 5, 6, -1])} {rng.choice([0, 1, 1, 2])} "
@@ -1038,6 +1043,65 @@ class C18(Prop):
             exc = e
         return "ok", {"kind": "retools", "mi": mi, "outer": outer, "inners": inners, "exc": exc}
 
+    def _gtools(self, t):
+        """Oracle-only search: the provider returns `tool_calls` as a GENERATOR OBJECT (truthy even when it yields
+        nothing, consumed by the loop's `for`), per round as many calls as the script digit says; outside the model
+        (tool_calls is None or a finite list there).  The budget must hold all the same."""
+        mi, ps = intd(t[1]), script_of(t[2])
+        LLMResponse = self.LLMResponse
+        cnt = {"T": 0, "C": 0, "E": 0}
+
+        class Call:
+            def __init__(self, i):
+                self.id, self.name, self.arguments = f"c{i}", "t", {}
+
+        class Res:
+            def __init__(self, cid):
+                self.call_id, self.output, self.success, self.error = cid, "r", True, None
+
+        class Prov:
+            name = "adv"
+
+            def is_available(self):
+                return True
+
+            def complete(self, prompt, config=None):
+                cnt["C"] += 1
+                if cnt["C"] > CAP:
+                    raise Runaway("complete")
+                return LLMResponse("final", "m", 1, 1.0)
+
+            def complete_with_tools(self, prompt, tools=None, config=None):
+                i = cnt["T"]
+                cnt["T"] += 1
+                if i >= CAP:
+                    raise Runaway("provider")
+                item = pick(ps, i, "1")
+                k = int(item) if item.isdigit() else 0
+                return LLMResponse("round", "m", 1, 1.0), (Call(i * 10 + j) for j in range(k))
+
+        class Mito:
+            def export_tool_schemas(self):
+                return [object()]
+
+            def execute_tool_call(self, call):
+                cnt["E"] += 1
+                return Res(call.id)
+        nuc = self.nu.Nucleus(provider=Prov())
+        exc = None
+        try:
+            nuc.transcribe_with_tools("Q<7>", Mito(), max_iterations=mi)
+        except Exception as e:   # noqa
+            exc = e
+        return "ok", {"kind": "gtools", "mi": mi, "cnt": cnt, "exc": exc}
+
+    def _oracle_gtools(self, info, V):
+        mi, cnt = info["mi"], info["cnt"]
+        if cnt["T"] > max(0, mi):
+            V("tool_loop_rounds_le_max_generator_calls", f"<= {max(0, mi)} tool rounds", cnt["T"])
+        if cnt["C"] > 1:
+            V("tool_loop_one_final_completion_generator_calls", "<= 1 plain completion", cnt["C"])
+
     def _oracle_retools(self, info, V):
         mi, outer = info["mi"], info["outer"]
         if outer["T"] > max(0, mi):
@@ -1090,6 +1154,8 @@ class C18(Prop):
                 o = self._sset(st, t)
             elif len(t) == 4 and t[0] == "retools":
                 o, info = self._retools(t)
+            elif len(t) == 3 and t[0] == "gtools":
+                o, info = self._gtools(t)
             else:
                 o = "bad-op"
             obs.append(o)
@@ -1115,6 +1181,8 @@ class C18(Prop):
                 self._oracle_swarm(info, V)
             elif info["kind"] == "retools":
                 self._oracle_retools(info, V)
+            elif info["kind"] == "gtools":
+                self._oracle_gtools(info, V)
             else:
                 self._oracle_tools(info, V)
         return out
